@@ -184,7 +184,7 @@ pub fn run(args: &Args) -> i32 {
     let tier = args.tier;
     let mut rep = Report::new("C17", tier, "model_checking");
     let start = Instant::now();
-    let budget_s = if tier == Tier::Thorough { 30.0 * 60.0 } else { 60.0 };
+    let budget_s = if tier == Tier::Thorough { 60.0 * 60.0 } else { 240.0 };
     let mut findings = Findings::new();
     let (mut states, mut transitions, mut max_depth) = (0u64, 0u64, 0usize);
     let mut phases: Vec<Value> = vec![];
